@@ -283,9 +283,9 @@ def monotonic_release(ctx) -> None:
     ctx.check(set(hnames) <= {'Invalid', 'Empty'} and bool(hnames), 'C05.monotonic', fn, f'only "no previous release" conditions bypass the version check (handlers: {hnames})', tr, key='put:handlers')
     cmps = []
     for r in [n for n in core.walk_local(fn.node) if isinstance(n, ast.Raise)]:
-        for t, pol in cfg.guards(r, fn.node, siblings=False):
-            txt = core.src(t).replace(' ', '')
-            if pol and txt in ('notrelease>previous', 'release<=previous', 'not(release>previous)', 'previous>=release'):
+        for t, pol in cfg.cguards(r, fn.node):
+            txt = t.replace(' ', '')
+            if (not pol and txt in ('release>previous', 'previous<release')) or (pol and txt in ('release<=previous', 'previous>=release')):
                 cmps.append(next(a for a in core.ancestors(r) if isinstance(a, ast.If)))
     ctx.check(bool(cmps), 'C05.monotonic', fn, 'a release not greater than the latest existing one is rejected', fn.node, key='put:compare')
     hnodes = [h for h in handlers]
@@ -330,8 +330,8 @@ def gap_free(ctx) -> None:
     ret = next((s for s in nxt.body if isinstance(s, ast.Return)), None)
     ctx.check(ret is not None and core.src(ret.value).replace(' ', '') in ('self.__class__(self+1)', 'type(self)(self+1)', 'Generation.Key(self+1)', 'self+1'), 'C05.gap-free', nxt, 'Generation.Key.next = self + 1', nxt.node, key='next')
     new = prog.func(f'{MINOR}:Generation.Key.__new__')
-    raises = [(r, [core.src(t).replace(' ', '') for t, pol in cfg.guards(r, new.node) if pol]) for r in core.walk_local(new.node) if isinstance(r, ast.Raise)]
-    ctx.check(any('instance<cls.MIN' in g for _, gs in raises for g in gs), 'C05.gap-free', new, 'generation keys below MIN are rejected', new.node, key='key-min')
+    raises = [(r, [(t.replace(' ', ''), pol) for t, pol in cfg.cguards(r, new.node)]) for r in core.walk_local(new.node) if isinstance(r, ast.Raise)]
+    ctx.check(any(g == ('instance<cls.MIN', True) for _, gs in raises for g in gs), 'C05.gap-free', new, 'generation keys below MIN are rejected', new.node, key='key-min')
     lst = prog.func(f'{DIRECTORY}:Level.Listing.__new__')
     ctx.check('tuple(sorted(set(items)))' in core.src(lst.node) or 'sorted(set(items))' in core.src(lst.node), 'C05.gap-free', lst, 'listings are sorted and duplicate-free', lst.node, key='listing')
     last = prog.func(f'{DIRECTORY}:Level.Listing.last')
@@ -355,7 +355,7 @@ def listing_validity(ctx) -> None:
     falses = []
     for r in core.walk_local(valid.node):
         if isinstance(r, ast.Return) and core.is_const(r.value, False):
-            falses += [core.src(t) for t, pol in cfg.guards(r, valid.node, siblings=False) if pol]
+            falses += [f'not {t}' for t, pol in cfg.cguards(r, valid.node) if not pol]
     direct = any(isinstance(r, ast.Return) and core.src(r.value).replace(' ', '') in ('cls.key(path)andcls.content(path)',) for r in core.walk_local(valid.node))
     ctx.check(direct or {'not cls.key(path)', 'not cls.content(path)'} <= set(falses), 'C05.listing', valid, 'valid = key is valid AND the level content (marker) is present', valid.node, key='valid')
     for level, const in (('Generation', 'TAGFILE'), ('Release', 'PKGFILE')):
